@@ -234,27 +234,19 @@ theorem mapJsonDoc_nodup (e : SEnv) (doc : JVal) (name : Str) (r : List Cls)
   | dict kvs => exact mapJsonItem_nodup e name (.dict kvs) r (by simpa [mapJsonDoc] using h)
   | list xs =>
     simp only [mapJsonDoc] at h
-    cases hm : xs.mapM (mapJsonItem e name) with
-    | error k => rw [hm] at h; cases h
-    | ok css =>
-      rw [hm] at h
-      simp only [Except.ok.injEq] at h
-      subst h
-      intro c hc
-      simp only [List.mem_flatten] at hc
-      obtain ⟨cs, hcs, hccs⟩ := hc
-      obtain ⟨x, _, hx⟩ := exceptMapM_mem _ xs css hm cs hcs
-      exact mapJsonItem_nodup e name x cs hx c hccs
-  | scalar sc =>
-    cases sc with
-    | str s =>
-      simp only [mapJsonDoc] at h
-      split at h
-      · simp only [Except.ok.injEq] at h; subst h; simp
-      · cases h
-    | none => simp [mapJsonDoc] at h
-    | int _ => simp [mapJsonDoc] at h
-    | bool _ => simp [mapJsonDoc] at h
-    | float _ _ => simp [mapJsonDoc] at h
+    split at h
+    · cases hm : xs.mapM (mapJsonItem e name) with
+      | error k => rw [hm] at h; cases h
+      | ok css =>
+        rw [hm] at h
+        simp only [Except.ok.injEq] at h
+        subst h
+        intro c hc
+        simp only [List.mem_flatten] at hc
+        obtain ⟨cs, hcs, hccs⟩ := hc
+        obtain ⟨x, _, hx⟩ := exceptMapM_mem _ xs css hm cs hcs
+        exact mapJsonItem_nodup e name x cs hx c hccs
+    · cases h
+  | scalar sc => simp [mapJsonDoc] at h
 
 end Xs.Samples
